@@ -12,8 +12,20 @@ ParamsLife == { P(2, 1, {1}, <<1, 2>>) }
 ParamsLife3 == { P(3, 1, {1}, <<1, 2>>) }
 \* keys: two statistics (two keys): both tracked, or only the first (norm_obs_keys)
 ParamsKeys == { P(1, 2, {1, 2}, <<1, 2>>), P(1, 2, {1}, <<1, 2>>) }
-\* histories for replay into the real wrapper: 2 or 3 statistics, 3 slots
-GenParams == { P(3, 2, {1, 2}, <<1, 2>>), P(3, 2, {1, 2}, <<1, 1>>), P(3, 3, {1, 2, 3}, <<1, 2>>), P(3, 3, {1, 2, 3}, <<1, 4>>) }
+\* histories for replay into the real wrapper: 2 or 3 statistics, 3 slots; TLC explores the structure of the
+\* history (which operation, which wrapper, batch sizes, modes); batch contents are a fixed pseudo-random
+\* function of (salt, position in the history, row, statistic) on the grid -2..2; unbatched observations
+\* are exercised by dedicated hand-written histories (props/x01.py)
+PG(n, e, salt) == [nslots |-> 3, nstat |-> n, tracked |-> 1..n, eps |-> e, salt |-> salt]
+GenParams == { PG(2, <<1, 2>>, 0), PG(2, <<1, 1>>, 1), PG(3, <<1, 2>>, 2), PG(3, <<1, 4>>, 3), PG(2, <<1, 4>>, 4), PG(3, <<1, 1>>, 5) }
+GVal(t, i, s) == LET h == par.salt * 11 + t * 7 + i * 3 + s * 4 + ((t * i * s) % 3) IN (h % 5) - 2
+GB(k, t) == [i \in 1..k |-> [s \in Stats |-> GVal(t, i, s)]]
+GT == Len(hist) + 1
+GNext ==
+  \/ \E a \in Slots, k \in 1..MaxB : Act(a, GB(k, GT), FALSE)
+  \/ \E a \in Slots, k \in 1..MaxB : Learn(a, GB(k, GT), GB(k, GT + 1))
+  \/ ModeAny \/ CloneAny \/ SaveAny \/ LoadAny \/ LoadNewAny
+GSpec == Init /\ [][GNext]_vars
 ValsA == {-2, -1, 0, 1, 2}
 ValsAt == {-3, -2, -1, 0, 1, 2, 3}
 ValsL == {-1, 2}
